@@ -3,7 +3,7 @@
    current /repo sources (coq/Gen/Gen_C10_schemas.v), so every theorem mentioning them is re-checked
    against what dump_raw / read_raw / Serialize / Deserialize say now. *)
 From Coq Require Import String List ZArith QArith.
-Require Import IPV.C10.Raw IPV.C10.RawSpec IPV.C10.RawProofs IPV.C10.RawLevels IPV.C10.Serial IPV.C10.Copy IPV.C10.Extra IPV.C10.RawFinal.
+Require Import IPV.C10.Raw IPV.C10.RawSpec IPV.C10.RawProofs IPV.C10.RawLevels IPV.C10.Serial IPV.C10.Copy IPV.C10.Extra IPV.C10.MergeRedox IPV.C10.RawFinal.
 Require Import IPV.Gen.Gen_C10_schemas.
 Import ListNotations.
 Open Scope string_scope.
@@ -123,3 +123,32 @@ Theorem option_no_match : forall item vopts,
     find_option item vopts = None -> forall e, In e vopts -> String.prefix (lower item) e = false.
 Proof. exact find_option_none. Qed.
 Print Assumptions option_no_match.
+
+(* cxxNameDouble::merge_redox (totals of SOLUTION_RAW / SOLUTION_MODIFY; model tied by correspondence with
+   harness/c10_nd.cpp).  The restart-scan loop removes exactly the keys that match, for every map: *)
+Theorem merge_redox_scan_removes_all_matching :
+  forall (V : Type) fuel p (m : ndmap V), (length m <= fuel)%nat -> scan fuel p m = remove_if p m.
+Proof. exact scan_is_filter. Qed.
+Print Assumptions merge_redox_scan_removes_all_matching.
+
+(* merging a total named by ELEMENT stores it, leaves no valence-state entry of that element, and changes
+   no other entry *)
+Theorem merge_redox_element_total :
+  forall (V : Type) (m : ndmap V) k v,
+    index_paren k = None ->
+    lookup k (merge1 m (k, v)) = Some v
+    /\ (forall k', String.prefix (k ++ "(") k' = true -> lookup k' (merge1 m (k, v)) = None)
+    /\ (forall k', k' <> k -> String.prefix (k ++ "(") k' = false -> lookup k' (merge1 m (k, v)) = lookup k' m).
+Proof. exact merge_element_total. Qed.
+Print Assumptions merge_redox_element_total.
+
+(* merging a total named by VALENCE STATE stores it and removes the key substr(0, pos-1) -- the element
+   name without its last character (Fe(2) removes F: finding restore:SOLUTION_RAW:-totals:F) -- nothing else *)
+Theorem merge_redox_valence_state :
+  forall (V : Type) (m : ndmap V) k v pos,
+    index_paren k = Some pos ->
+    lookup k (merge1 m (k, v)) = Some v
+    /\ (forall k', k' <> k -> k' <> redox_elt_name k pos -> lookup k' (merge1 m (k, v)) = lookup k' m)
+    /\ (redox_elt_name k pos <> k -> lookup (redox_elt_name k pos) (merge1 m (k, v)) = None).
+Proof. exact merge_redox_state. Qed.
+Print Assumptions merge_redox_valence_state.
